@@ -59,6 +59,13 @@ pub mod sop;
 mod static_lut;
 
 pub use decomposition::DecompositionType;
+
+/// Verification hooks, only compiled with `--cfg volute_verif`
+#[cfg(volute_verif)]
+pub mod verif {
+    pub use crate::canonization::verif_hook::{clear, last_sequences};
+}
+
 pub use lut::Lut;
 pub use static_lut::StaticLut;
 
